@@ -304,7 +304,7 @@ def part_generated(ctx, examples):
 PARTS = {"exhaustive": part_exhaustive, "generated": part_generated, "interleaved": part_interleaved}
 REPLAY = {"exhaustive": check_generated, "generated": check_generated, "interleaved": check_interleaved}
 KNOWN = {}
-FLOORS = {"nontrivial": ("", 0.2)}
+FLOORS = {"nontrivial": ("", 0.12)}
 
 
 def plan(tier, seed):
